@@ -148,7 +148,7 @@ def known_match(v, findings):
     return None
 
 
-def validate(prog, rng, n):
+def validate(prog, rng, n, rep=None):
     cases = []
     for i in range(n):
         fn = rng.choice(list(FUNCS))
@@ -170,6 +170,9 @@ def validate(prog, rng, n):
     S.WORD_BOUND[0] = 8
     S.DIGIT_BOUND[0] = 80
     for (fn, x, sa, y, sb), nat in zip(cases, outs):
+        if rep is not None and nat != expected_out(fn, x, sa, y, sb):
+            H.probe_violation(rep, PROP, 'native %s(%d@%d, %d@%d) = %s, numeric answer %s' % (fn, x, sa, y, sb, nat, expected_out(fn, x, sa, y, sb)), {'fn': fn, 'probe': True}, {'x': x, 'sa': sa, 'y': y, 'sb': sb}, nat)
+            continue
         m = E.Machine(prog, (), [], E.Stats(), loop_bound=3000)
         try:
             r = call_cmp(m, fn, x, sa, y, sb)
@@ -230,7 +233,7 @@ def main(tier):
                        'lt/le/gt/ge/max/min/sort are core default methods determined by cmp/partial_cmp']
     rep.outside = ['magnitudes >= 2^%d' % (32 * W), 'gaps not listed']
     sys.stderr.write('[C02] %d tasks\n' % len(tasks))
-    rep.validated, rep.validation_mismatches = validate(prog, rng, 300 if tier == 'quick' else 3000)
+    rep.validated, rep.validation_mismatches = validate(prog, rng, 300 if tier == 'quick' else 3000, rep)
     results = H.run_parallel(tasks, worker, progress=500)
     rep.add(results)
     findings = H.load_known_findings(PROP)
